@@ -18,8 +18,17 @@ CLAIMED['C15'] = dict(
     text=_T + 'for every leaf count in the bound with 32 symbolic bytes per leaf the returned root is the reference tree term over the same '
          'uninterpreted hash; witness root, constructor root check (symbolic declared root) and weights compared with reference definitions.',
     note='SHA-256 uninterpreted (congruence only): equality of nested hash terms decides tree shape/leaf order for all leaf values; counts 1..70.')
+CLAIMED['C03'] = dict(
+    text=_T + 'for every tx shape (n_in<=3, n_out<=3), input index 0..n_in, subscript token shape and a SYMBOLIC hash-type byte (all 256 values), '
+         'the digest returned by RawSignatureHash/SignatureHash equals double-SHA256(UF) of the pre-image built by an independent Satoshi-algorithm reference; '
+         'HASH_ONE/ValueError exactly in the two historical cases; txTo serialisation unchanged.',
+    note='SHA-256 uninterpreted; subscripts limited to <=3 (quick) / <=4 (thorough) tokens incl. OP_CODESEPARATOR inside push data; documented precondition of SignatureHash assumed.')
+CLAIMED['C04'] = dict(
+    text=_T + 'BIP143 digest compared with double-SHA256(UF) of an independent BIP143 pre-image for symbolic hash-type byte, amount 0..2^63-1 and all fields '
+         'over their full wire range (this is what exposed the signed nLockTime packing, now fixed); no exception on any in-range value.',
+    note='SHA-256 uninterpreted incl. hashPrevouts/hashSequence/hashOutputs; script-code lengths {0,1,3,0xfc,0xfd,0x100}; n_in<=3, n_out<=3.')
 _UC = 'check not built yet in this round (engine exists; harness pending) - will be claimed or declared not applicable with its real reason'
-for _i in ['C03','C04','C05','C06','C07','C08','C09','C10','C11','C12','C14','C16','C18','C19','C20']:
+for _i in ['C05','C06','C07','C08','C09','C10','C11','C12','C14','C16','C18','C19','C20']:
     NA[_i] = _UC
 NA['C13'] = ('key derivation, signing, verification and point validity are computed by OpenSSL through ctypes: there is no Python or IR to execute '
              'symbolically, and the reference (secp256k1 group law, 256-bit modular inversion) is non-linear 256-bit arithmetic out of reach of z3/cvc5')
